@@ -4,12 +4,12 @@ func init() {
 	reg(&propCfg{
 		ID: "C17", Level: "exploration",
 		Rule: "random operation histories (1-400 ops, alphabets of 2-7 values drawn from the extremes of int8/int16/int32/int64/int/float32/float64, capacities 1-9) run in lock-step against a bounded-FIFO model (Ring) and a multiset model (Bst) with a reflective structural walk of the live tree every 16 ops; plus every Bst history of length <= L over a 3-letter alphabet (9 step kinds). A history is counted as distinct non-trivial when it contains a remove and a duplicate insert (Bst) or a put on a full ring and a get (Ring); exhaustive batches count once each.",
-		Exhaustive: "all Bst histories of length <= 5 (quick) / <= 6 (thorough) over {insert,remove,contains} x 3 values, for float64 {1,2,3} and int8 {-128,0,127}",
+		Exhaustive: "all Bst histories of length <= 5 (quick) / <= 7 (thorough) over {insert,remove,contains} x 3 values, for float64 {1,2,3} and int8 {-128,0,127}",
 		Shards: [2]int{16, 16}, MinEvals: [2]int{100, 1000},
 	})
 	reg(&propCfg{
 		ID: "C16", Level: "exploration",
-		Rule: "every stream helper is run inside the timer-free pipeline runner (independent reader per output, producers must reach close, goroutine census afterwards) and compared exactly with a pure slice model: exhaustively for all input lengths 0-6 (0-4 / 0-3 per stream for the 2- and 3-input zippers, all combinations of unequal lengths) x all parameters 0-8 x 4 schedule parameterisations x element types int, float64, int64 (distinct, signed elements), plus random lengths up to 200 with random capacities, pacing and GOMAXPROCS. A case is counted as distinct non-trivial per (helper, type, length tuple with a non-empty first input, parameter tuple).",
+		Rule: "every stream helper is run inside the timer-free pipeline runner (independent reader per output, producers must reach close, goroutine census afterwards) and compared exactly with a pure slice model: exhaustively for all input lengths 0-6 (thorough 0-8; 0-4/0-5 and 0-3/0-4 per stream for the 2- and 3-input zippers, all combinations of unequal lengths) x all parameters 0-8 x 4 schedule parameterisations x element types int, float64, int64 (distinct, signed elements), plus random lengths up to 200 with random capacities, pacing and GOMAXPROCS. A case is counted as distinct non-trivial per (helper, type, length tuple with a non-empty first input, parameter tuple).",
 		Exhaustive: "lengths 0-6 x parameters 0-8 per helper (Operate: all length pairs 0-4; Operate3: all triples 0-3; Since: all sequences of length <= 7 over 3 letters; Seq: from/to in [-3,6], increments 1-3)",
 		Shards: [2]int{16, 16}, MinEvals: [2]int{100, 100},
 	})
@@ -103,14 +103,14 @@ func init() {
 	})
 	reg(&propCfg{
 		ID: "C07", Level: "exploration",
-		Rule: "the real And/Or/Majority/Split/Inverse/NoLoss/StopLoss combinators (and nestings NoLoss(StopLoss), StopLoss(NoLoss), Inverse(NoLoss), NoLoss(Inverse), NoLoss(And)) wrap scripted stub strategies that replay chosen action words; the output is compared with slice models of the specified combination (votes over position-wise DENORMALISED words, split rule, swap, explicit no-loss / stop-loss state machines over (action, close)) and, independently, with two trace safety monitors (no Sell at a close not above the preceding Buy's close; a Sell at the first close <= buy*(1-pct)). Exhaustive: all tuples of k words of length n for k=1 (n<=7), k=2 (n<=4), k=3 (n<=2 quick / n<=3 thorough) x 4 closing series x 3 percentages where relevant; plus random words up to length 200 with up to 6 sub-strategies. MACD-RSI is compared with the agreement rule over its own two real sub-strategies. distinct_nontrivial counts distinct (shape, word tuple) cases with n >= 2.",
-		Exhaustive: "all k-tuples of action words over {Sell,Hold,Buy}: k=1 n<=7, k=2 n<=4, k=3 n<=2 (quick) / n<=3 (thorough), for every combinator shape",
+		Rule: "the real And/Or/Majority/Split/Inverse/NoLoss/StopLoss combinators (and nestings NoLoss(StopLoss), StopLoss(NoLoss), Inverse(NoLoss), NoLoss(Inverse), NoLoss(And)) wrap scripted stub strategies that replay chosen action words; the output is compared with slice models of the specified combination (votes over position-wise DENORMALISED words, split rule, swap, explicit no-loss / stop-loss state machines over (action, close)) and, independently, with two trace safety monitors (no Sell at a close not above the preceding Buy's close; a Sell at the first close <= buy*(1-pct)). Exhaustive: all tuples of k words of length n for k=1 (n<=7 quick / 8 thorough), k=2 (n<=4 / 5), k=3 (n<=2 / 3) x 4 closing series x 3 percentages where relevant; plus random words up to length 200 with up to 6 sub-strategies. MACD-RSI is compared with the agreement rule over its own two real sub-strategies. distinct_nontrivial counts distinct (shape, word tuple) cases with n >= 2.",
+		Exhaustive: "all k-tuples of action words over {Sell,Hold,Buy}: k=1 n<=7/8, k=2 n<=4/5, k=3 n<=2/3 (quick/thorough), for every combinator shape",
 		Shards: [2]int{16, 16}, MinEvals: [2]int{100, 150},
 	})
 	reg(&propCfg{
 		ID: "C08", Level: "exploration",
-		Rule: "strategy.Outcome is run on channels for EVERY action word over {Sell,Hold,Buy} up to length 7 (quick) / 8 (thorough) x 6 positive value series (rising, halving, 1e-3 and 1e6 magnitudes, flat, jagged) and for random words/values up to length 300 with unequal stream lengths both ways; each run is compared with an independent (cash, shares) simulator (1e-12) and passed through invariant monitors (one entry per pair, >= -100%, 0 until the first Buy, bit-identical after NormalizeActions, strict Buy/Sell alternation of normalised streams, Normalize(Denormalize(x)) == x, CountTransactions = running non-Hold count, both producers reach close); buy-and-hold through ComputeWithOutcome equals v_i/v_0 - 1. distinct_nontrivial counts distinct words with at least two non-Hold actions plus random cases.",
-		Exhaustive: "all action words of length <= 7 (quick) / <= 8 (thorough) x 6 value series",
+		Rule: "strategy.Outcome is run on channels for EVERY action word over {Sell,Hold,Buy} up to length 7 (quick) / 9 (thorough) x 6 positive value series (rising, halving, 1e-3 and 1e6 magnitudes, flat, jagged) and for random words/values up to length 300 with unequal stream lengths both ways; each run is compared with an independent (cash, shares) simulator (1e-12) and passed through invariant monitors (one entry per pair, >= -100%, 0 until the first Buy, bit-identical after NormalizeActions, strict Buy/Sell alternation of normalised streams, Normalize(Denormalize(x)) == x, CountTransactions = running non-Hold count, both producers reach close); buy-and-hold through ComputeWithOutcome equals v_i/v_0 - 1. distinct_nontrivial counts distinct words with at least two non-Hold actions plus random cases.",
+		Exhaustive: "all action words of length <= 7 (quick) / <= 9 (thorough) x 6 value series",
 		Shards: [2]int{16, 16}, MinEvals: [2]int{40, 100},
 	})
 }
